@@ -30,6 +30,9 @@ Definition f_time := 8.
 Definition f_frame := 9.
 Definition f_area_um := 10.
 Definition f_deform := 11.
+Definition f_fl1_ctc := 12.
+Definition f_fl2_ctc := 13.
+Definition f_fl3_ctc := 14.
 Definition k_lut := 1.
 Definition k_medium := 2.
 Definition k_temperature := 3.
